@@ -192,6 +192,9 @@ def _equality(w, e, s, l, r, positive, outs):
     if is_const(l) and is_const(r):
         outs.append((s, "val", C((l[2] == r[2]) == positive)))
         return
+    if _is_enum(l) and _is_enum(r):
+        outs.append((s, "val", C((l == r) == positive)))
+        return
     a, b = s.copy(), s.copy()
     # set(x) == {"a", "b"}: x has exactly these keys (x's iteration yields exactly them)
     if is_call(l, ("builtin:set", "builtin:frozenset")) and len(l[2]) == 1 and is_lit(r, "set"):
@@ -277,7 +280,14 @@ def _ordering(w, e, s, l, r, op, outs):
     _emit(outs, None if s.contradicts(("cmp", op, l, r)) else a, None if s.contradicts(("cmp", neg, l, r)) else b, True)
 
 
+def _is_enum(t):
+    return isinstance(t, tuple) and len(t) == 3 and t[0] == "enum"
+
+
 def _identity(w, e, s, l, r, positive, outs):
+    if _is_enum(l) and _is_enum(r):
+        outs.append((s, "val", C((l == r) == positive)))  # enum members are singletons
+        return
     if is_const(r) and r[2] is None:
         a, b = s.copy(), s.copy()
         a.add(("type", l, frozenset(["NoneType"])))
